@@ -56,7 +56,60 @@ def cases(tier, seed):
                     for v in range(spec["nvar"]):
                         out.append(dict(kind="lin" if name != "stepper.Wave" else "wave", cls=name, D=D, N=N, v=v,
                                         rs=[seed, env.crc(name), D, N, v, rep], cost=N ** D))
+    for x64 in (True, False):       # documented showcase configurations (docs/examples/solver_showcase_1d), 200-step rollouts, x64 and default float32 sessions
+        for which in ("advection", "advection_diffusion", "dispersion", "general_linear", "diffusion_sines", "hyper_diffusion_sines", "wave_standing"):
+            out.append(dict(kind="showcase", which=which, x64=x64, rs=[seed, env.crc(which)], cost=8))
     return out
+
+
+def run_showcase(case, bus, ex):
+    """History checker on the documented 1D showcase set-ups: every 10th state of a 200-step jit-ed rollout against the closed form."""
+    import jax, jax.numpy as jnp
+    which, x64 = case["which"], case["x64"]
+    N, n = 100, 200
+    S_ = ex.stepper
+    sin = lambda m, a=1.0: ((m,), a, -np.pi / 2)          # a sin(2 pi m x / L) as a cosine term
+    if which == "advection":
+        it = dict(cls="stepper.Advection", D=1, N=N, L=1.0, dt=0.01, kw=dict(velocity=1.0)); terms = [sin(1)]
+    elif which == "advection_diffusion":
+        it = dict(cls="stepper.AdvectionDiffusion", D=1, N=N, L=1.0, dt=0.01, kw=dict(velocity=1.0, diffusivity=0.001)); terms = [sin(5)]
+    elif which == "dispersion":
+        it = dict(cls="stepper.Dispersion", D=1, N=N, L=1.0, dt=0.01, kw=dict(dispersivity=0.01)); terms = [sin(1), sin(2)]
+    elif which == "general_linear":
+        it = dict(cls="generic.GeneralLinearStepper", D=1, N=N, L=1.0, dt=0.01, kw=dict(linear_coefficients=[-0.01, -0.3, 0.001, -0.0001, -0.00001])); terms = [sin(1), sin(2)]
+    elif which == "diffusion_sines":
+        it = dict(cls="stepper.Diffusion", D=1, N=N, L=1.0, dt=0.01, kw=dict(diffusivity=0.01)); terms = [sin(1), sin(7, 0.5), ((0,), 0.3, 0.0)]
+    elif which == "hyper_diffusion_sines":
+        it = dict(cls="stepper.HyperDiffusion", D=1, N=N, L=1.0, dt=0.01, kw=dict(hyper_diffusivity=0.0001)); terms = [sin(1), sin(3, 0.5)]
+    else:
+        it = None
+    eps = float(np.finfo(np.float64 if x64 else np.float32).eps)
+    sess = "x64" if x64 else "f32"
+    if it is not None:
+        st = zoo.build(ex, it)
+        tp = G.TrigPoly(1, it["L"], [list(terms)])
+        u0 = tp.on_grid(N)
+        trj = np.asarray(jax.jit(ex.rollout(st, n, include_init=True))(jnp.asarray(u0))).astype(np.float64)
+        for i in range(0, n + 1, 10):
+            t = i * it["dt"]
+            sol = tp.mapped(lambda kp: np.exp(t * complex(linref.symbol(it, kp.reshape((1,))))))
+            za = max(t * float(linref.symbol_abs(it, np.array(k, float).reshape((1,)) * 2 * np.pi / it["L"])) for k, _, _ in tp.terms[0])
+            tol = 64 * eps * (1 + za + i) * (1 + np.log2(N)) * tp.scale()
+            bus.judge("closed_form", float(np.max(np.abs(trj[i] - sol.on_grid(N)))), tol, ("showcase:" + which, sess, "step<=100" if i <= 100 else "step>100"),
+                      sample=dict(workload=which, session=sess, step=i) if i == n else None, witness=dict(workload=which, session=sess, step=i, intent=it))
+        return
+    # standing wave of the documented Wave set-up: h0 = cos(3x), v0 = 0 on L = 2 pi -> h = cos(3x) cos(3 c t), v = -3c cos(3x) sin(3 c t)
+    L, dt, c = 2 * np.pi, 0.1, 1.0
+    st = S_.Wave(1, L, N, dt, speed_of_sound=c)
+    x = np.arange(N) * L / N
+    u0 = np.stack([np.cos(3 * x), np.zeros(N)])
+    trj = np.asarray(jax.jit(ex.rollout(st, n, include_init=True))(jnp.asarray(u0))).astype(np.float64)
+    for i in range(0, n + 1, 10):
+        t = i * dt
+        ref = np.stack([np.cos(3 * x) * np.cos(3 * c * t), -3 * c * np.cos(3 * x) * np.sin(3 * c * t)])
+        tol = 64 * eps * (1 + 3 * c * t + i) * (1 + np.log2(N)) * 3
+        bus.judge("wave_propagator", float(np.max(np.abs(trj[i] - ref))), tol, ("showcase:wave_standing", sess, "step<=100" if i <= 100 else "step>100"),
+                  witness=dict(workload=which, session=sess, step=i))
 
 
 def regime(z):
@@ -66,9 +119,13 @@ def regime(z):
 
 def run_case(case, bus, ex):
     import jax, jax.numpy as jnp
+    if case["kind"] == "showcase":
+        return run_showcase(case, bus, ex)
     rng = env.rng_for(*case["rs"])
     name, D, N, v = case["cls"], case["D"], case["N"], case["v"]
     L = float(rng.choice([1.0, 2 * np.pi, 10 ** rng.uniform(-2, 2)]))
+    if case["kind"] == "showcase":
+        return run_showcase(case, bus, ex)
     if case["kind"] == "wave":
         return run_wave(case, bus, ex, rng, L)
     it = zoo.make_intent(rng, name, D, N, L=L, dt=dt_draw(rng, None), variant=v)
